@@ -20,6 +20,12 @@ def reference_module():
     return Module('spec/murmur3_reference.py', os.path.join(VERIF, 'spec', 'murmur3_reference.py'))
 
 
+class _OneIter(object):
+    """iter(<tuple>) in the interpreted source: remembered so that zip(it, it) can be read as pairing consecutive elements"""
+    def __init__(self, items):
+        self.items = tuple(items)
+
+
 def _effect_for(mod, L):
     def effect(interp, node, c, args, kwargs, env):
         if c == ('body_and_tail',):
@@ -27,6 +33,15 @@ def _effect_for(mod, L):
             return (tuple(Sym('b%d' % i) for i in range(nb * 2)), tuple(Sym('t%d' % i) for i in range(t)), L)
         if c == ('range',) and args and all(isinstance(a, int) for a in args):
             return tuple(range(*args))
+        if c == ('iter',) and len(args) == 1 and isinstance(args[0], tuple):
+            return _OneIter(args[0])
+        if c == ('zip',) and args:
+            if all(isinstance(a, _OneIter) for a in args) and all(a is args[0] for a in args):
+                # zip(it, it, ...): consecutive groups drawn from one shared iterator
+                k, items = len(args), args[0].items
+                return tuple(tuple(items[i:i + k]) for i in range(0, len(items) - len(items) % k, k))
+            if all(isinstance(a, tuple) for a in args):
+                return tuple(zip(*args))
         if c == ('len',) and len(args) == 1 and isinstance(args[0], (tuple, list)):
             return len(args[0])
         if c and len(c) == 1 and c[0] in OPAQUE:
